@@ -703,7 +703,7 @@ func (vc *VC) contractCall(st *State, call *ast.CallExpr, c *FuncContract, fn *t
 	case c.Pure || c.NoHeap:
 	case c.HasAssigns:
 		for _, a := range c.Assigns {
-			if a == "*" {
+			if a == "*" || a == "**" {
 				vc.havocHeap(st, c.Key)
 				continue
 			}
@@ -1274,7 +1274,7 @@ func (vc *VC) callEffects(call *ast.CallExpr, ef *effects) {
 		if c.HasAssigns {
 			star := false
 			for _, a := range c.Assigns {
-				if a == "*" {
+				if a == "*" || a == "**" {
 					star = true
 				} else if _, isGhost := vc.prog.DB.Ghosts[a]; !isGhost {
 					ef.patterns = append(ef.patterns, a)
